@@ -63,6 +63,7 @@ def tasks(tier):
     def add(subset, driver, s0, first, kind="A", expr=False, variant=None):
         out.append({"subset": subset, "driver": driver, "s0": s0, "first": first, "kind": kind, "expr": expr, "variant": variant})
 
+    out.append({"kind": "per-instance", "quick": quick})
     for first in range(3):
         for s0 in (range(4) if not quick else (0, 3)):
             add("all", "sync-facade", s0, first, kind="S" if s0 == 3 else "A")
@@ -100,7 +101,7 @@ BOUNDS = {
     "thorough": "all pre-states, all 7 single-coroutine twins on every first event, scenario A with the in-loop driver.",
 }
 OUTSIDE = "machines driven in turn from different OS threads (the symbolic engine is per-thread; C06 covers the loop-per-thread facade structurally); rtc=False (rejected by the async engine at construction, documented)"
-OBLIGATIONS = ["twins-agree", "in-loop-driver", "sync-facade-driver", "single-coroutine-callback", "async-raise", "async-nested-send", "activation-by-first-event"]
+OBLIGATIONS = ["twin-instances-of-one-class", "twins-agree", "in-loop-driver", "sync-facade-driver", "single-coroutine-callback", "async-raise", "async-nested-send", "activation-by-first-event"]
 ASSUMPTIONS = [
     "the two twins carry identical class and callback qualified names (as when produced by one factory function); the signature cache is cleared at the start of every path",
     "twin equality is asserted where both twins complete initial activation before the first user event; the deferred activation of the async twin (documented) is judged by the acceptor",
@@ -130,6 +131,14 @@ def make_twin(ctx, am, params, script_kw):
 
 
 def run(ctx, params):
+    if params.get("kind") == "per-instance":
+        # twins that are two INSTANCES of one class: one served by a provider with plain callbacks, the other by the same
+        # provider written with coroutine functions (scenario shared with C12)
+        from harness.c12 import run_providers_per_instance
+
+        run_providers_per_instance(ctx, params)
+        ctx.cover("twin-instances-of-one-class")
+        return
     with ctx.notracing():
         try:
             from statemachine.signature import SignatureAdapter
